@@ -140,6 +140,15 @@ def check_fresh_names(rep: Report, prog: Program, rule: str, funcs: List[FuncInf
                             v2 += registry_views(src, al2)
                         comp2 = {r for r, v in v2 if v in COMPLETE}
                         part2 = sorted({r for r, v in v2 if v in PARTIAL} - comp2)
+                        readers2 = set()
+                        for x in own_nodes(g2.node, into_lambdas=True):
+                            if isinstance(x, ast.Call) and isinstance(x.func, ast.Attribute) and x.func.attr in PARTIAL | COMPLETE | {'all_rules'} and not x.args:
+                                rt = _recv_text(x.func.value, al2)
+                                if rt.split('.')[0] in g2.param_names():
+                                    readers2.add(rt)
+                        unseeded2 = sorted(readers2 - comp2)
+                        if unseeded2:
+                            part2 = part2 + [f"{u} (its labels are read but never seeded)" for u in unseeded2]
                         rep.ob(rule + ' (a) complete seed', g2.fq(), f"avoid set `{arg.id}` passed to {owner.name}(...)", g2.loc(c2),
                                bool(comp2) and not part2,
                                f"complete registries seeded: {sorted(comp2)}" + (f"; partial views without the complete one: {part2}" if part2 else '')
